@@ -242,12 +242,20 @@ def check_transition(kind, attr, std, alias, state, op, bare=False):
     s1, s2 = outcome_str(obj), outcome_str(fresh)
     if s1 != s2:
         fail("serialization differs from that of an object built directly from the same content", s2, s1)
-    elif s1[0] == "ok" and kind != "SSCChart":
+    elif s1[0] == "ok":
         # serialization sees exactly the mapping's content
         tok = M.tokenize(s1[1], False)
-        want_params = [M.param_of(k, v) for k, v in new_state]
+        if kind == "SSCChart":
+            # NOTEDATA, then every item except the note data in order, then the note data
+            # (NOTES, or NOTES2 when that alias is the only one present)
+            nk = M.ssc_notes_key(list(new_state))
+            want_params = [("NOTEDATA", "")] + [M.param_of(k, v) for k, v in new_state if k != nk] + [M._notes_param(nk, dict(new_state)[nk])]
+        else:
+            want_params = [M.param_of(k, v) for k, v in new_state]
         if tok[0] != "ok" or tok[1] != want_params:
             fail("serialization does not show exactly the mapping's content", want_params, tok)
+    elif kind == "SSCChart" and M.ssc_notes_key(list(new_state)) is not None:
+        fail("serializing a chart that has note data raised", "text", s1)
     # a different content must not compare equal
     if new_state != state:
         old = build(kind, state)
